@@ -81,6 +81,9 @@ def instantiate(template, consts, dest, twin=False):
     src = open(os.path.join(HARNESS, template), encoding="utf-8").read()
     for k, v in consts.items():
         src = src.replace("@@" + k + "@@", repr(v))
+        src = src.replace("$$" + k + "$$", str(v))          # raw substitution (type annotations)
+    if "$$CPS$$" in src:                                     # Tuple[int, ...] of NCP symbolic code points
+        src = src.replace("$$CPS$$", "Tuple[" + ", ".join(["int"] * max(1, int(consts["NCP"]))) + "]")
     left = re.findall(r"@@[A-Z_0-9]+@@", src)
     if left:
         raise RuntimeError(f"{template}: unsubstituted placeholders {sorted(set(left))}")
